@@ -163,8 +163,114 @@ def props_power_tick(E, res):
     return P
 
 
+# ---- tolerated sends inside the tick: request_terminate_deals ----------------------------------------------
+
+def run_terminate_deals(cron):
+    def run(E):
+        rt, rtref = new_rt(E)
+        if cron:
+            # cron context: message origin = system actor (f00); the immediate caller is the power actor
+            E.ctx.assume(z3.And(rt.origin.proto == 0, rt.origin.key == 0, rt.caller.proto == 0, rt.caller.key == 4))
+        else:
+            E.ctx.assume(z3.Not(z3.And(rt.origin.proto == 0, rt.origin.key == 0)))
+        nm = 'sectors'
+        E.ctx.assume(z3.Int(nm + '#card') >= 0)
+        bf = models_fvm.BitFieldV(nm)
+        ep = E.materialize('i64', 'term_epoch')
+        fn = find_fn(E, 'fil_actor_miner', 'request_terminate_deals')
+        return E.run_function(fn, [rtref, ep, RefV(Cell(bf, 'bf'), ())]), rt
+    return run
+
+
+def props_terminate_deals(cron):
+    def props(E, res):
+        rt = res.ctx.env['rt']
+        if res.kind != 'return':
+            return [('no panic (%s)' % str(res.info)[:60], False)]
+        P = [('at most one notification, to the market actor, without value',
+              len(rt.sends) <= 1 and all(implied(res.ctx, b_and(s.to.proto == 0, s.to.key == 5, s.value == 0)) for s in rt.sends))]
+        if cron:
+            P.append(('inside the tick a failing market notification is tolerated: the miner callback does not fail', is_ok(res.value)))
+        else:
+            P.append(('outside the tick the call fails exactly when the notification failed', is_ok(res.value) == all(s.ok for s in rt.sends)))
+        return P
+    return props
+
+
+# ---- early terminations are all eventually processed: Partition::pop_early_terminations -----------------------
+# The partition's early-termination queue (AMT epoch -> sector set) with n entries; sector sets are modelled by
+# their cardinality.  CUT: Partition::validate_state (sector-set invariants, C04 area) -> Ok.
+
+def run_pop_et(n):
+    def run(E):
+        rt, rtref = new_rt(E)
+        PF = Fields('actors/miner/src/partition_state.rs', 'Partition')
+        qb = BaseInfo(closed=True)
+        part = StructV('Partition', {}, lazy='part')
+        qcid = fget(E, part, PF['early_terminated'], CID)
+        name = qcid.hkey[1] if qcid.hkey[0] == 'sym' else None
+        E.ctx.memo[('mapbase', 'map(%s)' % name)] = qb
+        ents = []
+        prev = None
+        for i in range(n):
+            ep = z3.Int('q%d.epoch' % i)
+            E.ctx.assume(z3.And(ep >= 0, ep < 2**40))
+            if prev is not None:
+                E.ctx.assume(ep > prev)
+            prev = ep
+            bf = models_fvm.BitFieldV('q%d.sectors' % i)
+            card = z3.Int('q%d.sectors#card' % i)
+            E.ctx.assume(z3.And(card >= 1, card < 2**40))       # queue entries are never empty
+            qb.entries.append([('int', ep), True, bf, IntV(ep, 'u64')])
+            ents.append((ep, card))
+        mx = E.materialize('u64', 'max_sectors')
+        E.ctx.assume(z3.And(mx.v >= 1, mx.v < 2**40))
+        E.cuts['Partition::validate_state'] = lambda E2, call: ok(UNIT, call.dest_ty)
+        cell = Cell(part, 'part')
+        E.ctx.env.update(dict(ents=ents, mx=mx.v, cell=cell))
+        fn = find_fn(E, 'fil_actor_miner', 'pop_early_terminations', 'partition_state')
+        return E.run_function(fn, [RefV(cell, (), True), RefV(Cell(OpaqueV('store'), 'store'), ()), mx]), rt
+    return run
+
+
+def props_pop_et(E, res):
+    env = res.ctx.env
+    ctx = res.ctx
+    if res.kind != 'return':
+        return [('no panic (%s)' % str(res.info)[:60], False)]
+    if is_err(res.value):
+        return [('popping early terminations from a well-formed queue never fails', False)]
+    PF = Fields('actors/miner/src/partition_state.rs', 'Partition')
+    tup = E.deref(res.value.fields[('Ok', 0)])
+    result, has_more = E.deref(tup.fields[0]), tup.fields[1]
+    TR = Fields('actors/miner/src/termination.rs', 'TerminationResult')
+    processed = fget(E, result, TR['sectors_processed'], 'u64').v
+    part1 = env['cell'].value
+    q1 = heap_get(E, fget(E, part1, PF['early_terminated'], CID))
+    if not isinstance(q1, MapM):
+        return [('queue written back', False)]
+    left = models_fvm.map_entries(E, q1)
+    left_card = sum(z3.Int(E.deref(v).name + '#card') for (_, v, _) in left) if left else 0
+    total = sum(c for (_, c) in env['ents']) if env['ents'] else 0
+    hm = has_more if is_sym(has_more) else z3.BoolVal(bool(has_more))
+    P = [('has_more is reported exactly when entries remain queued (nothing is stranded)', hm == z3.BoolVal(len(left) > 0)),
+         ('processed + remaining = queued', processed + left_card == total),
+         ('never more than the budget', processed <= env['mx']),
+         ('budget used up or queue drained', z3.Or(processed == env['mx'], z3.BoolVal(len(left) == 0))),
+         ('remaining entries are non-empty', all_of([z3.Int(E.deref(v).name + '#card') >= 1 for (_, v, _) in left]))]
+    return P
+
+
 def build(tier):
     O = []
+    for n in ([0, 1, 2] if tier == 'quick' else [0, 1, 2, 3]):
+        O.append(Obligation('miner.Partition::pop_early_terminations[queue entries=%d]' % n, run_pop_et(n), props_pop_et,
+                            descr='has_more reported iff entries remain; processed + remaining = queued; budget respected',
+                            bounds='%d queue entries; sector sets by cardinality; CUT: Partition::validate_state' % n, max_paths=20000))
+    for cron in (True, False):
+        O.append(Obligation('miner.request_terminate_deals[%s]' % ('cron context' if cron else 'user message'), run_terminate_deals(cron), props_terminate_deals(cron),
+                            descr='market notification of terminated sectors: tolerated failure inside the tick (origin = system actor), propagated otherwise',
+                            bounds='one call; sector set symbolic (cardinality only); send may succeed, fail or hit a syscall error', max_paths=2000))
     for n in ([0, 1, 2, 3] if tier == 'quick' else [0, 1, 2, 3, 4]):
         O.append(Obligation('cron.epoch_tick[entries=%d]' % n, run_cron(n), props_cron,
                             descr='every entry attempted once in order; Ok for every pattern of failing entries', bounds='%d entries' % n, max_paths=20000))
